@@ -15,7 +15,7 @@ STEP_BASE = 20000
 STEP_PER_MODEL_STEP = 400
 
 _env = None
-_counter = {"n": 0, "limit": None, "cancel_at": None}
+_counter = {"n": 0, "limit": None, "cancel_at": None, "cancel_fired": False}
 
 
 class StepBudgetExceeded(BaseException):
@@ -69,6 +69,7 @@ def install_step_counter(modules):
         c = _counter
         c["n"] += 1
         if c["cancel_at"] is not None and c["n"] == c["cancel_at"]:
+            c["cancel_fired"] = True
             raise HostCancel()
         if c["limit"] is not None and c["n"] > c["limit"]:
             c["limit"] = None
@@ -106,7 +107,27 @@ def _observe(vm, prog):
     return {n: vm.GetGlobal(n) for n, _t in prog["globals"]}
 
 
+def _foreign(x):
+    """Does a value contain a leaf that is no number (None, a sentinel object, ...)?"""
+    if isinstance(x, dict):
+        return any(_foreign(v) for v in x.values())
+    if isinstance(x, (list, tuple)):
+        return any(_foreign(v) for v in x)
+    return not isinstance(x, (int, float))
+
+
 def execute(sc):
+    if sc.get("cancel") and not sc.get("_isolated"):
+        # the cancellation probe raises a host exception at an arbitrary line of the VM: whatever
+        # process-wide state that leaves half-built must not reach the next scenarios of this chunk
+        r = core.run_isolated(execute, dict(sc, _isolated=True), timeout_s(sc))
+        if r.get("verdict") == "timeout":
+            return {"verdict": "harness-error", "detail": "isolated cancellation-probe run timed out", "stats": {}}
+        return r
+    return _execute_guarded(sc)
+
+
+def _execute_guarded(sc):
     import os
 
     old_cwd = os.getcwd()
@@ -204,8 +225,17 @@ def _execute(sc):
         return {n: (host_live[x["$ref"]] if isinstance(x, dict) and "$ref" in x else copy.deepcopy(x)) for n, x in a.items()}
 
     def model_args(a):
-        return {n: (list(host_pristine[x["$ref"]]) if isinstance(x, dict) and "$ref" in x else copy.deepcopy(x))
-                for n, x in a.items()}
+        # the value the host passes is what its object holds *now* (C15 says nothing about what an
+        # invocation may do to an argument object the host keeps; a VM that writes into it is tallied)
+        out = {}
+        for n, x in a.items():
+            if isinstance(x, dict) and "$ref" in x:
+                if host_live[x["$ref"]] != list(host_pristine[x["$ref"]]):
+                    bump("probe_host_argument_object_was_written_by_the_vm")
+                out[n] = copy.deepcopy(host_live[x["$ref"]])
+            else:
+                out[n] = copy.deepcopy(x)
+        return out
 
 
     def unset_view(vm, name):
@@ -310,8 +340,13 @@ def _execute(sc):
             twin = VM.VirtualMachine(lkt.Link())
             for n in sorted(snap):
                 twin.SetGlobal(n, copy.deepcopy(snap[n]))
-            want = outcome_of(twin, model_args(op[3]))
+            margs_ = model_args(op[3])
+            want = outcome_of(twin, margs_)
             got = outcome_of(vms[v], vm_args(op[3]))
+            if got[0][0] == "no-progress" or want[0][0] == "no-progress":
+                # the flat budget cuts the two runs at unrelated points: nothing to compare
+                bump("twin_runs_cut_no_progress")
+                return done("ok", None, "cut: an invocation with a missing argument did not finish in the budget", cut=True)
             bump("twin_checked_invocations")
             bump("twin_outcome_" + got[0][0])
             log.add("invx", vm=v, fn=op[2], args=op[3], outcome=got[0])
@@ -325,7 +360,7 @@ def _execute(sc):
                     f"brand-new VM of a freshly linked program with the same globals it gives {want[0]} and {want[1]}",
                 )
             models[v].g = copy.deepcopy(got[1])
-            if "null" in core.canon(got[1]):
+            if _foreign(got[1]) or (got[0][0] == "ret" and _foreign(got[0][1])):
                 # the missing argument ended up inside a global: from here on the precondition "every
                 # global holds a value of its type" is gone, nothing later is judged
                 bump("twin_runs_cut_unset_value_reached_a_global")
@@ -380,6 +415,10 @@ def _execute(sc):
             finally:
                 _counter["limit"] = None
                 _counter["cancel_at"] = None
+                if _counter["cancel_fired"]:
+                    # whatever came out of the invocation (the VM may wrap or swallow the host's exception)
+                    cancelled = True
+                    _counter["cancel_fired"] = False
             bump("vm_line_events", _counter["n"])
             if cancelled:
                 # beyond-statement probe: adopt whatever the VM shows, keep going;
